@@ -73,6 +73,18 @@ def subscribeMap (c : Consumer) (k : Nat) : Consumer :=
      | _, _ => c)
   | none => c
 
+/-- `PdoMap.read(from_od=True)` of consumer map `k` whose communication parameter 1 holds
+    `cob | (¬enabled)<<31 | (¬rtr)<<30` and whose mapping parameter names the map's own layout:
+    COB-ID, valid and RTR flags are taken from the entry, the map is cleared and mapped again (data
+    all zero), and the map is subscribed when enabled -/
+def readFromOd (c : Consumer) (k : Nat) (cob : Nat) (enabled rtr : Bool) : Consumer :=
+  match c.maps[k]? with
+  | some m =>
+    let m' := { m with cobId := some cob, enabled := enabled, rtrAllowed := rtr,
+                       data := (mkMap (some cob) enabled rtr m.layout).data }
+    subscribeMap { c with maps := c.maps.set k m' } k
+  | none => c
+
 /-- deliver to one map -/
 def deliverTo (maps : List PMap) (k : Nat) (canId : Nat) (data : Bytes) (ts : Int) : List PMap × List (Nat × Nat) :=
   match maps[k]? with
